@@ -36,12 +36,60 @@ class InfoSim(cm.Simulator):
             kids = st.get("c", [])
             if ce is not None and "info" in cx.idents(ce) and len(kids) > 1 and \
                     (cm.is_error_exit(kids[1]) or (len(kids) > 2 and cm.is_error_exit(kids[2]))):
-                self.events.append(("check", None, st))
+                miss = _info_values_not_rejected(ce, then_is_error=cm.is_error_exit(kids[1]))
+                if miss:
+                    self.events.append(("weak-check", miss, st))
+                else:
+                    self.events.append(("check", None, st))
         elif k == "ReturnStmt" and not cm.is_error_exit(st):
             txt = self.c.text(st["b"], st["b"] + 24) if st.get("b") is not None else ""
             if not re.match(r"return\s+NULL\b", txt):       # `return NULL` is the error convention
                 self.events.append(("return", None, st))
         return super()._stmt(st, facts, in_threads, path)
+
+
+def _cval(e, info):
+    k = e[0]
+    if k == "num":
+        return e[1]
+    if k == "id":
+        return info if e[1] == "info" else None
+    if k == "cast":
+        return _cval(e[2], info)
+    if k == "un":
+        v = _cval(e[2], info)
+        if v is None:
+            return None
+        return {"!": int(not v), "-": -v, "+": v}.get(e[1])
+    if k == "bin":
+        a, b = _cval(e[2], info), _cval(e[3], info)
+        if e[1] == "&&":
+            return None if a is None or b is None else int(bool(a) and bool(b))
+        if e[1] == "||":
+            return None if a is None or b is None else int(bool(a) or bool(b))
+        if a is None or b is None:
+            return None
+        ops = {"<": a < b, ">": a > b, "<=": a <= b, ">=": a >= b, "==": a == b, "!=": a != b}
+        if e[1] in ops:
+            return int(ops[e[1]])
+        if e[1] in ("+", "-", "*"):
+            return a + b if e[1] == "+" else a - b if e[1] == "-" else a * b
+    return None
+
+
+def _info_values_not_rejected(ce, then_is_error):
+    """nonzero info values for which the test does not take its error exit (only when the
+    condition depends on info alone; otherwise [] = not decided here)"""
+    if cx.idents(ce) != {"info"}:
+        return []
+    out = []
+    for v in (-3, -1, 1, 2, 7):
+        r = _cval(ce, v)
+        if r is None:
+            return []
+        if bool(r) != then_is_error:
+            out.append(v)
+    return out
 
 
 _WC = {}
@@ -71,6 +119,8 @@ def _case_worker(args):
                 n_info_calls += 1
             elif ev == "check":
                 pending = None
+            elif ev == "weak-check" and pending is not None and bad_info is None:
+                bad_info = (pending[0] + " for info in %s (one-sided test)" % (nm,), repr(case), c.line_of(node.get("b")))
             elif ev == "return" and pending is not None and bad_info is None:
                 bad_info = (pending[0], repr(case), c.line_of(node.get("b")))
         for s in sites:
@@ -274,7 +324,41 @@ def build(tier, repo):
         "gees": "real Schur form returns eigenvalues in (wr, wi), complex in w: different argument lists by definition",
         "gges": "generalised real Schur form returns (alphar, alphai, beta): different argument lists by definition",
         "pttrs": "zpttrs takes an extra uplo argument"})
+    nst = cw.arm_store_rule(r5, c, wrappers)
+    chk.note_analysed("arm_store_sets", nst)
     r5.require(35)
+
+    r7 = chk.rule("C18-R7", "32-bit pivot scratch arrays are copied from / back into the caller's integer matrix in the direction the routine uses them",
+                  "pivots returned by a factorisation are the ones a later solve reads")
+    for fn in wrappers:
+        node = c.funcs[fn]
+        txt = cx.strip_pp(c.text(node["b"], node["e"]))
+        allocs = re.findall(r"\b(\w+)\s*=\s*(?:\(\s*int\s*\*\s*\)\s*)?(?:malloc|calloc)\s*\([^;]*sizeof\s*\(\s*int\s*\)", txt)
+        for P in sorted(set(allocs)):
+            back = len(re.findall(r"MAT_BUFI\s*\(\s*\w+\s*\)\s*\[[^\]]*\]\s*=\s*%s\s*\[" % re.escape(P), txt))
+            into = len(re.findall(r"\b%s\s*\[[^\]]*\]\s*=\s*(?:\(int\)\s*)?MAT_BUFI\s*\(" % re.escape(P), txt))
+            routines = sorted({m_.group(1) for m_ in re.finditer(r"\b([dz]\w+)_\s*\([^;]*\b%s\b" % re.escape(P), txt)})
+            if not routines:
+                continue
+            base = kbl.lookup(routines[0] + "_") or routines[0][1:]
+            # is P handed over in a pivot position at all (and not as integer work space)?
+            if not re.search(r"piv|jpvt", P):
+                continue
+            out_kind = bool(re.search(r"(trf|sv|qp3)$", base))
+            in_kind = bool(re.search(r"(trs|tri|qp3)$", base)) or fn in ("sysv", "hesv")
+            key = "%s:%s" % (fn, P)
+            where = "src/C/lapack.c:%s" % fn
+            miss = []
+            if out_kind and back < 1:
+                miss.append("copied back into MAT_BUFI(..) after %s" % routines[0])
+            if in_kind and not out_kind and into < 1:
+                miss.append("filled from MAT_BUFI(..) before %s" % routines[0])
+            if miss:
+                r7.violation(key, where, "the scratch pivot array `%s` is never %s: on LP64 the caller's integer matrix and the "
+                             "array LAPACK used hold different pivots" % (P, " / ".join(miss)), "element-wise copy loop", "absent")
+            else:
+                r7.ok(key, where, "%s: %d copy-back, %d copy-in" % (base, back, into))
+    r7.require(12)
 
     r6 = chk.rule("C18-R6", "keyword/format/address tables agree; naming convention of auxiliary arguments; manual signatures are prefixes of the keyword lists",
                   "size-inconsistent arguments raise TypeError/ValueError; documented keywords are accepted")
